@@ -109,6 +109,7 @@ let run mode file =
            | ["asz"; v] -> if v <> "0" then asz := int_of_string v | ["ngs"; v] -> ngs := v <> "0" | _ -> ()) fields
        | ["close"] -> Hashtbl.reset readers
        | _ -> ())
+    | ["ps"; v] -> (try ps := int_of_string v with _ -> ())          (* the file's actual page size, reported after Open *)
     | "io" :: "mmap" :: _ :: _ :: ["FAIL"] -> ms := None      (* unmapped until reopen: the free list is not reloaded *)
     | "io" :: "write" :: off :: len :: rest ->
       incr ops; incr writes;
